@@ -455,6 +455,36 @@ Definition simulate_calcul (nbsimu nvar icase : Z) (nb : list row) (wgt : list (
                       (combine ps simus) target)
   end.
 
+(* CalcSimuTurningBands::_updateData2ToTarget, output Db = point file (CalcSimuTurningBands.cpp:1840-1888).
+   Samples are addressed by their ABSOLUTE rank in the data Db; a masked sample (selection) is skipped
+   but keeps its rank.  [ip_close] = absolute rank of the first active datum within eps of the target. *)
+Record datum := mkDatum { d_active : bool; d_xy : list Q; d_z : list (option Q) }.
+Definition dist2 (a b : list Q) : Q :=
+  fold_left Qplus (map (fun p => (fst p - snd p) * (fst p - snd p))%Q (combine a b)) 0%Q.
+Definition is_close (eps2 : Q) (c : list Q) (d : datum) : bool := d_active d && qleb (dist2 c (d_xy d)) eps2.
+Fixpoint find_close (eps2 : Q) (c : list Q) (data : list datum) (ip : nat) : option nat :=
+  match data with
+  | [] => None
+  | d :: r => if is_close eps2 c d then Some ip else find_close eps2 c r (S ip)
+  end.
+Definition no_datum : datum := mkDatum false [] [].
+(* valdat = dbin->getZVariable(ip_close, ivar); if (FFFF(valdat)) continue; dbout->setSimvar(SIMU, ik, isimu, ivar, ...) *)
+Definition update_point_target (nbsimu nvar icase : Z) (eps2 : Q) (data : list datum)
+           (t_active : bool) (c : list Q) (r : row) : row :=
+  if negb t_active then r else
+  match find_close eps2 c data 0 with
+  | None => r
+  | Some ip =>
+      let z := d_z (nth ip data no_datum) in
+      pw_update (fun p => sim_rank (fst p) (snd p) icase nbsimu nvar)
+                (fun p old => match nth (Z.to_nat (snd p)) z None with Some v => Some v | None => old end)
+                (sim_pairs nbsimu nvar) r
+  end.
+(* rank of absolute sample i among the active samples (the numbering of vectors compressed by the selection) *)
+Definition rank_active {A} (active : A -> bool) (i : nat) (l : list A) : nat := length (filter active (firstn i l)).
+(* the rows of the neighbouring (= active) data, in the order of _nbgh *)
+Definition active_rows {A} (active : A -> bool) (l : list A) : list A := filter active l.
+
 (* ------------------------------------------------------------------------------------------ *)
 (* 4. Lithotype rule: thresholds, facies -> bounds, gaussians -> facies                        *)
 (* ------------------------------------------------------------------------------------------ *)
